@@ -26,6 +26,7 @@ EP = "<store::fs::StoreInstance<'a> as ranger::Store<sync::SignedEntry>>::entry_
 
 EXPLANATION += ' (R1, round 8) every success return of Store::persistent ensures run_migrations (interprocedural), and Store values are built only on behalf of the constructors.'
 EXPLANATION += ' Round 9: (R4) run_migration commits for Execute(0) as well.'
+EXPLANATION += ' (R8, round 10) = the index rows of C02.R1 (the maintained index loses an id only together with its record).'
 
 
 def r1(ctx):
